@@ -239,8 +239,9 @@ def spec_sensitive(key):
 
 
 def key_in_quantifier(key):
-    """ASCII case folding only, no trailing newline ('$' quirk): what the property's quantifier covers."""
-    return not key.endswith("\n") and all(ord(c) < 128 or c.lower() == c.upper() for c in key)
+    """What the property's quantifier covers: no trailing newline ('$' quirk) and none of the four non-ASCII
+    characters whose case folding reaches an ASCII letter (U+017F, U+212A, U+0130, U+0131)."""
+    return not key.endswith("\n") and not any(c in "\u017f\u212a\u0130\u0131" for c in key)
 
 
 def _has_surrogate(s):
@@ -344,25 +345,25 @@ def _set_env(env):
 
 
 def _tree_tables(objs):
-    """sha256 digests of str() of every subtree (the hash_it oracle)."""
+    """sha256 digests of str() of every value stored under a key, at any depth (the hash_it oracle)."""
     seen = {}
 
-    def rec(v):
+    def rec(v, member):
         s = str(v)
-        if s not in seen:
+        if member and s not in seen:
             try:
                 seen[s] = hashlib.sha256(s.encode()).hexdigest()[:8]
             except UnicodeEncodeError:
                 seen[s] = None
         if isinstance(v, dict):
             for x in v.values():
-                rec(x)
+                rec(x, True)
         elif isinstance(v, list):
             for x in v:
-                rec(x)
+                rec(x, False)
 
     for o in objs:
-        rec(o)
+        rec(o, False)
     return [[k, d] for k, d in seen.items()]
 
 
@@ -372,13 +373,14 @@ def _parse_table(coloured):
     table = []
     for i in range(len(parts)):
         cand = "|".join(parts[i:])
+        offset = len(coloured) - len(cand)
         try:
             v = json.loads(cand.encode("UTF8"))
         except ValueError:
             v = None
         except RecursionError:
             v = None
-        table.append([cand, v if isinstance(v, dict) else None])
+        table.append([offset, v if isinstance(v, dict) else None])
     return table
 
 
@@ -672,7 +674,7 @@ def to_coq(case, obs):
     if k == "fmt":
         if obs.get("msg") is None or not _model_covers_text(obs["msg"]) or _has_surrogate(obs["msg"]):
             return None
-        ptab = _l(_l([_a(c)] + ([] if v is None else [_sj(v)])) for c, v in obs["parse"])
+        ptab = _l(_l([_a(str(c))] + ([] if v is None else [_sj(v)])) for c, v in obs["parse"])
         return ("fmt", _term("c20_dec_fmt", [_b(obs["can"]), _a(obs["msg"]), ptab, _sdigests(obs["digests"]), _a(obs["out"])]))
     return None
 
@@ -883,7 +885,7 @@ def _rand_object_text(rng, special=None):
 
 
 def _fmt_case(rng, msg, **kw):
-    c = {"kind": "fmt", "msg": msg, "layout": rng.choice([0, 0, 1, 2]), "suppress": rng.random() < 0.4, "env": rng.choice([0, 1, 1, 2]),
+    c = {"kind": "fmt", "msg": msg, "layout": rng.choice([0, 1, 2]), "suppress": rng.random() < 0.4, "env": rng.choice([0, 1, 1, 2]),
          "level": rng.choice(LEVELS), "as_dict": False}
     c.update(kw)
     return c
@@ -985,15 +987,15 @@ def exhaustive(tier):
 
 def generate(rng, tier):
     scale = 1 if tier == "quick" else 20
-    for i in range(420 * scale):
+    for i in range(240 * scale):
         yield _rand_json_fmt(rng)
-    for i in range(200 * scale):
+    for i in range(110 * scale):
         yield _rand_url_text(rng)
-    for i in range(80 * scale):
+    for i in range(50 * scale):
         yield _rand_malformed(rng)
-    for i in range(220 * scale):
+    for i in range(200 * scale):
         yield _rand_clean(rng)
-    for i in range(160 * scale):
+    for i in range(150 * scale):
         yield _rand_gcl(rng)
     for i in range(200 * scale):
         yield _rand_keycase(rng)
